@@ -25,14 +25,27 @@ use barter::{
     },
 };
 use barter_data::{
+    books::{Level, OrderBook},
     event::{DataKind, MarketEvent},
     streams::consumer::MarketStreamEvent,
-    subscription::trade::PublicTrade,
+    subscription::{
+        book::{OrderBookEvent, OrderBookL1},
+        candle::Candle,
+        liquidation::Liquidation,
+        trade::PublicTrade,
+    },
 };
 use barter_execution::{
-    AccountEvent, AccountEventKind, AccountSnapshot,
+    AccountEvent, AccountEventKind, AccountSnapshot, InstrumentAccountSnapshot,
     balance::{AssetBalance, Balance},
-    order::request::{OrderRequestCancel, OrderRequestOpen},
+    error::{ApiError, ConnectivityError, OrderError},
+    order::{
+        Order, OrderKey, OrderKind, TimeInForce,
+        id::{ClientOrderId, OrderId, StrategyId},
+        request::{OrderRequestCancel, OrderRequestOpen, OrderResponseCancel},
+        state::{CancelInFlight, Cancelled, Open, OpenInFlight, OrderState},
+    },
+    trade::{AssetFees, Trade, TradeId},
 };
 use barter_instrument::{
     Side, Underlying,
@@ -281,63 +294,259 @@ fn coq_event(e: &Ev) -> String {
     }
 }
 
+/// Names of the account item kinds (index = `akind` of an "ai" event).
+const ACCOUNT_KINDS: [&str; 26] = [
+    "snapshot_empty",
+    "balance_snapshot",
+    "snapshot_balances_and_orders",
+    "order_open_in_flight",
+    "order_open_partial",
+    "order_open_unfilled",
+    "order_cancel_in_flight",
+    "order_cancelled",
+    "order_fully_filled",
+    "order_expired",
+    "order_open_failed_conn_timeout",
+    "order_open_failed_conn_offline",
+    "order_open_failed_conn_socket",
+    "order_open_failed_rate_limit",
+    "order_open_failed_balance_insufficient",
+    "order_open_failed_instrument_invalid",
+    "order_open_failed_rejected",
+    "cancel_ok",
+    "cancel_err_conn_timeout",
+    "cancel_err_conn_offline",
+    "cancel_err_conn_socket",
+    "cancel_err_already_cancelled",
+    "cancel_err_already_filled",
+    "cancel_err_rate_limit",
+    "trade_buy",
+    "trade_sell",
+];
+/// Names of the market item kinds (index = `akind` of an "mi" event).
+const MARKET_KINDS: [&str; 10] = [
+    "public_trade",
+    "l1_two_sided",
+    "l1_bid_only",
+    "l1_ask_only",
+    "l1_empty",
+    "l2_snapshot",
+    "l2_update",
+    "l2_snapshot_empty",
+    "candle",
+    "liquidation",
+];
+
+/// numeric tag of the item kind carried in the Coq case: 0 = notice, 1 + k = k-th market item
+/// kind, 100 + k = k-th account item kind
+fn item_kind_code(e: &Ev) -> u128 {
+    match e.k {
+        "ai" => 100 + (e.akind as u128) % ACCOUNT_KINDS.len() as u128,
+        "mi" => 1 + (e.akind as u128) % MARKET_KINDS.len() as u128,
+        _ => 0,
+    }
+}
+
+fn kind_name(e: &Ev) -> &'static str {
+    match e.k {
+        "ai" => ACCOUNT_KINDS[(e.akind as usize) % ACCOUNT_KINDS.len()],
+        "mi" => MARKET_KINDS[(e.akind as usize) % MARKET_KINDS.len()],
+        _ => "notice",
+    }
+}
+
+fn lvl(p: i64, a: i64) -> Level {
+    Level::new(Decimal::new(p, 0), Decimal::new(a, 0))
+}
+
+fn market_kind(k: u64, step: usize, time: DateTime<Utc>) -> DataKind {
+    let px = 100 + (step % 7) as i64;
+    match (k as usize) % MARKET_KINDS.len() {
+        0 => DataKind::Trade(PublicTrade {
+            id: step.to_string(),
+            price: px as f64,
+            amount: 1.0,
+            side: if step % 2 == 0 { Side::Buy } else { Side::Sell },
+        }),
+        1 => DataKind::OrderBookL1(OrderBookL1 {
+            last_update_time: time,
+            best_bid: Some(lvl(px - 1, 2)),
+            best_ask: Some(lvl(px + 1, 3)),
+        }),
+        2 => DataKind::OrderBookL1(OrderBookL1 { last_update_time: time, best_bid: Some(lvl(px - 1, 2)), best_ask: None }),
+        3 => DataKind::OrderBookL1(OrderBookL1 { last_update_time: time, best_bid: None, best_ask: Some(lvl(px + 1, 3)) }),
+        4 => DataKind::OrderBookL1(OrderBookL1 { last_update_time: time, best_bid: None, best_ask: None }),
+        5 => DataKind::OrderBook(OrderBookEvent::Snapshot(OrderBook::new(
+            step as u64,
+            Some(time),
+            vec![lvl(px - 1, 2), lvl(px - 2, 5)],
+            vec![lvl(px + 1, 3)],
+        ))),
+        6 => DataKind::OrderBook(OrderBookEvent::Update(OrderBook::new(
+            step as u64,
+            None,
+            vec![lvl(px - 1, 0)],
+            vec![lvl(px + 2, 4)],
+        ))),
+        7 => DataKind::OrderBook(OrderBookEvent::Snapshot(OrderBook::new(
+            step as u64,
+            Some(time),
+            Vec::<Level>::new(),
+            Vec::<Level>::new(),
+        ))),
+        8 => DataKind::Candle(Candle {
+            close_time: time,
+            open: px as f64,
+            high: px as f64 + 2.0,
+            low: px as f64 - 2.0,
+            close: px as f64 + 1.0,
+            volume: 12.5,
+            trade_count: 7,
+        }),
+        _ => DataKind::Liquidation(Liquidation { side: Side::Sell, price: px as f64, quantity: 0.5, time }),
+    }
+}
+
+/// the account item of kind `k` for exchange index `x`, naming an instrument / asset of that
+/// exchange (instrument 0 / asset 0 when the index is out of range)
+fn account_kind(
+    k: u64,
+    x: usize,
+    step: usize,
+    time: DateTime<Utc>,
+    instruments: &IndexedInstruments,
+) -> AccountEventKind<ExchangeIndex, AssetIndex, InstrumentIndex> {
+    let exchange_id = instruments.exchanges().get(x).map(|e| e.value);
+    let own_instr: Vec<InstrumentIndex> = instruments
+        .instruments()
+        .iter()
+        .filter(|i| Some(i.value.exchange.value) == exchange_id)
+        .map(|i| i.key)
+        .collect();
+    let own_assets: Vec<AssetIndex> = instruments
+        .assets()
+        .iter()
+        .filter(|a| Some(a.value.exchange) == exchange_id)
+        .map(|a| a.key)
+        .collect();
+    let instrument = own_instr.get(step % own_instr.len().max(1)).copied().unwrap_or(InstrumentIndex(0));
+    let asset = own_assets.get(step % own_assets.len().max(1)).copied().unwrap_or(AssetIndex(0));
+    let key = |tag: &str| OrderKey {
+        exchange: ExchangeIndex(x),
+        instrument,
+        strategy: StrategyId::new("c14"),
+        cid: ClientOrderId::new(format!("{tag}{}", step % 3)),
+    };
+    let order = |tag: &str, state: OrderState<AssetIndex, InstrumentIndex>| Order {
+        key: key(tag),
+        side: if step % 2 == 0 { Side::Buy } else { Side::Sell },
+        price: Decimal::new(100 + (step % 7) as i64, 0),
+        quantity: Decimal::new(4, 0),
+        kind: if step % 3 == 0 { OrderKind::Market } else { OrderKind::Limit },
+        time_in_force: TimeInForce::GoodUntilCancelled { post_only: false },
+        state,
+    };
+    let open = |filled: i64| Open {
+        id: OrderId::new(format!("oid{}", step % 3)),
+        time_exchange: time,
+        filled_quantity: Decimal::new(filled, 0),
+    };
+    let exch = exchange_id.unwrap_or(ExchangeId::Other);
+    let snap = |o| AccountEventKind::OrderSnapshot(Snapshot(o));
+    let failed = |e: OrderError<AssetIndex, InstrumentIndex>| OrderState::inactive(e);
+    let cancel = |state| AccountEventKind::OrderCancelled(OrderResponseCancel { key: key("o"), state });
+    let trade = |side: Side| {
+        AccountEventKind::Trade(Trade {
+            id: TradeId::new(format!("t{step}")),
+            order_id: OrderId::new(format!("oid{}", step % 3)),
+            instrument,
+            strategy: StrategyId::new("c14"),
+            time_exchange: time,
+            side,
+            price: Decimal::new(100 + (step % 7) as i64, 0),
+            quantity: Decimal::new(1 + (step % 2) as i64, 0),
+            fees: AssetFees::quote_fees(Decimal::new(1, 1)),
+        })
+    };
+    match (k as usize) % ACCOUNT_KINDS.len() {
+        0 => AccountEventKind::Snapshot(AccountSnapshot { exchange: ExchangeIndex(x), balances: vec![], instruments: vec![] }),
+        1 => AccountEventKind::BalanceSnapshot(Snapshot(AssetBalance {
+            asset,
+            balance: Balance::new(Decimal::new(100 + step as i64, 0), Decimal::new(50, 0)),
+            time_exchange: time,
+        })),
+        2 => AccountEventKind::Snapshot(AccountSnapshot {
+            exchange: ExchangeIndex(x),
+            balances: own_assets
+                .iter()
+                .map(|a| AssetBalance {
+                    asset: *a,
+                    balance: Balance::new(Decimal::new(10 + step as i64, 0), Decimal::new(5, 0)),
+                    time_exchange: time,
+                })
+                .collect(),
+            instruments: own_instr
+                .iter()
+                .map(|i| InstrumentAccountSnapshot {
+                    instrument: *i,
+                    orders: vec![
+                        Order { key: OrderKey { instrument: *i, ..key("s") }, ..order("s", OrderState::active(open(1))) },
+                        Order { key: OrderKey { instrument: *i, ..key("z") }, ..order("z", OrderState::fully_filled()) },
+                    ],
+                })
+                .collect(),
+        }),
+        3 => snap(order("o", OrderState::active(OpenInFlight))),
+        4 => snap(order("o", OrderState::active(open(1)))),
+        5 => snap(order("o", OrderState::active(open(0)))),
+        6 => snap(order("o", OrderState::active(CancelInFlight { order: Some(open(1)) }))),
+        7 => snap(order("o", OrderState::inactive(Cancelled { id: OrderId::new(format!("oid{}", step % 3)), time_exchange: time }))),
+        8 => snap(order("o", OrderState::fully_filled())),
+        9 => snap(order("o", OrderState::expired())),
+        10 => snap(order("o", failed(OrderError::Connectivity(ConnectivityError::Timeout)))),
+        11 => snap(order("o", failed(OrderError::Connectivity(ConnectivityError::ExchangeOffline(exch))))),
+        12 => snap(order("o", failed(OrderError::Connectivity(ConnectivityError::Socket("c14".to_string()))))),
+        13 => snap(order("o", failed(OrderError::Rejected(ApiError::RateLimit)))),
+        14 => snap(order("o", failed(OrderError::Rejected(ApiError::BalanceInsufficient(asset, "c14".to_string()))))),
+        15 => snap(order("o", failed(OrderError::Rejected(ApiError::InstrumentInvalid(instrument, "c14".to_string()))))),
+        16 => snap(order("o", failed(OrderError::Rejected(ApiError::OrderRejected("c14".to_string()))))),
+        17 => cancel(Ok(Cancelled { id: OrderId::new(format!("oid{}", step % 3)), time_exchange: time })),
+        18 => cancel(Err(OrderError::Connectivity(ConnectivityError::Timeout))),
+        19 => cancel(Err(OrderError::Connectivity(ConnectivityError::ExchangeOffline(exch)))),
+        20 => cancel(Err(OrderError::Connectivity(ConnectivityError::Socket("c14".to_string())))),
+        21 => cancel(Err(OrderError::Rejected(ApiError::OrderAlreadyCancelled))),
+        22 => cancel(Err(OrderError::Rejected(ApiError::OrderAlreadyFullyFilled))),
+        23 => cancel(Err(OrderError::Rejected(ApiError::RateLimit))),
+        24 => trade(Side::Buy),
+        _ => trade(Side::Sell),
+    }
+}
+
 fn engine_event(e: &Ev, step: usize, instruments: &IndexedInstruments) -> EngineEvent<DataKind> {
     let time = t0() + Duration::seconds(step as i64 + 1);
     match e.k {
         "mi" => {
             let ex = POOL[e.x % POOL.len()];
             // an instrument of that exchange (instrument 0 if the exchange is not tracked)
-            let instrument = instruments
+            let own: Vec<InstrumentIndex> = instruments
                 .instruments()
                 .iter()
-                .find(|i| i.value.exchange.value == ex)
+                .filter(|i| i.value.exchange.value == ex)
                 .map(|i| i.key)
-                .unwrap_or(InstrumentIndex(0));
+                .collect();
+            let instrument = own.get(step % own.len().max(1)).copied().unwrap_or(InstrumentIndex(0));
             EngineEvent::Market(MarketStreamEvent::Item(MarketEvent {
                 time_exchange: time,
                 time_received: time,
                 exchange: ex,
                 instrument,
-                kind: DataKind::Trade(PublicTrade {
-                    id: step.to_string(),
-                    price: 100.0 + (step % 7) as f64,
-                    amount: 1.0,
-                    side: Side::Buy,
-                }),
+                kind: market_kind(e.akind, step, time),
             }))
         }
-        "ai" => {
-            let kind = if e.akind % 2 == 0 {
-                AccountEventKind::Snapshot(AccountSnapshot {
-                    exchange: ExchangeIndex(e.x),
-                    balances: vec![],
-                    instruments: vec![],
-                })
-            } else {
-                // a balance of an asset of that exchange (asset 0 if the index is out of range)
-                let asset = instruments
-                    .assets()
-                    .iter()
-                    .find(|a| {
-                        instruments
-                            .exchanges()
-                            .get(e.x)
-                            .map(|x| x.value == a.value.exchange)
-                            .unwrap_or(false)
-                    })
-                    .map(|a| a.key)
-                    .unwrap_or(AssetIndex(0));
-                AccountEventKind::BalanceSnapshot(Snapshot(AssetBalance {
-                    asset,
-                    balance: Balance::new(Decimal::new(100 + step as i64, 0), Decimal::new(50, 0)),
-                    time_exchange: time,
-                }))
-            };
-            EngineEvent::Account(AccountStreamEvent::Item(AccountEvent {
-                exchange: ExchangeIndex(e.x),
-                kind,
-            }))
-        }
+        "ai" => EngineEvent::Account(AccountStreamEvent::Item(AccountEvent {
+            exchange: ExchangeIndex(e.x),
+            kind: account_kind(e.akind, e.x, step, time, instruments),
+        })),
         "mr" => EngineEvent::Market(MarketStreamEvent::Reconnecting(POOL[e.x % POOL.len()])),
         _ => EngineEvent::Account(AccountStreamEvent::Reconnecting(POOL[e.x % POOL.len()])),
     }
@@ -430,6 +639,10 @@ fn run_case(inp: &Input) -> (String, Vec<String>, bool) {
                 {
                     format!("(OutAccount {})", n(code(d.exchange)))
                 }
+                // a fill that closes a position: Engine::process reports the exited position
+                (NoneOneOrMany::One(EngineOutput::PositionExit(_)), NoneOneOrMany::None) => {
+                    "OutPositionExit".to_string()
+                }
                 _ => "OutOther".to_string(),
             },
             Ok(_) => "OutOther".to_string(),
@@ -442,6 +655,9 @@ fn run_case(inp: &Input) -> (String, Vec<String>, bool) {
             nontrivial = true;
         }
         tags.push(branch_tag(e, &pre, &post, res.is_err()));
+        if e.k == "ai" || e.k == "mi" {
+            tags.push(format!("{}_kind:{}", e.k, kind_name(e)));
+        }
         obs.push(format!(
             "(mkObs {} {} {} {})",
             health(post.0),
@@ -467,10 +683,11 @@ fn run_case(inp: &Input) -> (String, Vec<String>, bool) {
         )
     }));
     let coq = format!(
-        "(mkCase {} {} {} {})",
+        "(mkCase {} {} {} {} {})",
         list(&ids),
         start,
         list(&inp.events.iter().map(coq_event).collect::<Vec<_>>()),
+        list(&inp.events.iter().map(|e| n(item_kind_code(e))).collect::<Vec<_>>()),
         list(&obs)
     );
     (coq, tags, nontrivial)
@@ -504,7 +721,7 @@ fn table(em: &mut Emitter) {
                 let ls: Vec<(bool, bool)> = (0..n_ex)
                     .map(|i| (mask & (1 << (2 * i)) != 0, mask & (1 << (2 * i + 1)) != 0))
                     .collect();
-                for k in ["mi", "ai", "mr", "ar"] {
+                for (k, kind) in item_kinds() {
                     for x in 0..n_ex {
                         // exchanges = pool 0 (Kraken) and 1 (BinanceSpot); index order is
                         // BinanceSpot, Kraken, so account index x and pool index x differ
@@ -513,12 +730,31 @@ fn table(em: &mut Emitter) {
                             instr_per_ex: vec![1; n_ex],
                             trading: false,
                             start: Some((g, ls.clone())),
-                            events: vec![Ev { k, x, akind: (mask as u64 + x as u64) % 2 }],
+                            events: vec![Ev { k, x, akind: kind }],
                         };
                         emit(em, "table", &inp);
                     }
                 }
             }
+        }
+    }
+}
+
+/// every event kind x every item kind
+fn item_kinds() -> Vec<(&'static str, u64)> {
+    let mut v = vec![("mr", 0), ("ar", 0)];
+    v.extend((0..MARKET_KINDS.len() as u64).map(|k| ("mi", k)));
+    v.extend((0..ACCOUNT_KINDS.len() as u64).map(|k| ("ai", k)));
+    v
+}
+
+/// give every item of a generated history a random item kind
+fn assign_kinds(r: &mut Rng, events: &mut [Ev]) {
+    for e in events.iter_mut() {
+        match e.k {
+            "mi" => e.akind = r.below(MARKET_KINDS.len() as u64),
+            "ai" => e.akind = r.below(ACCOUNT_KINDS.len() as u64),
+            _ => {}
         }
     }
 }
@@ -571,6 +807,7 @@ fn gen_random(r: &mut Rng, max_len: u64) -> Input {
         };
         events.push(ev);
     }
+    assign_kinds(r, &mut events);
     Input {
         exchanges,
         instr_per_ex,
@@ -678,6 +915,7 @@ fn gen_adversarial(r: &mut Rng, max_len: u64) -> Input {
             }
         }
     }
+    assign_kinds(r, &mut events);
     Input {
         exchanges,
         instr_per_ex,
